@@ -418,6 +418,7 @@ def run(ctx):
     sign_printing(ctx)
     scope_peels_const_and_typedef_together(ctx)
     comparisons_pair_this_with_other(ctx)
+    function_scopes_hang_under_the_declarators_scope(ctx)
     rebuild_rules(ctx, "R06.5")
     changed_flag_rules(ctx, "R06.6")
     ctx.rule("R06.1", "every field a (non-copy) constructor initialises from a parameter is read by the class's structural is_less() and is_equal()")
@@ -849,3 +850,46 @@ def comparisons_pair_this_with_other(ctx):
                            "guard `%s` (%s) / order `%s` (%s)" % (show(n["c"])[:50], "deep" if ga[2] else "by address", show(r["e"])[:50], "deep" if ra[2] else "by address"))
     ctx.floor("R06.13", "member-to-member comparisons in is_equal/is_less", n13, 60)
     ctx.floor("R06.14", "guarded orderings in is_less", n14, 15)
+
+
+def function_scopes_hang_under_the_declarators_scope(ctx):
+    """R06.15: while a function's parameter list, trailing return type or constructor initialisers are parsed, names are
+    looked up in a scope the grammar makes for the function.  For `auto S::make(int) -> Item *` (valid C++) `Item` is a
+    member of S: the new scope's parent must be the scope the declarator names (`$n->get_scope(current_scope,
+    global_scope)`), with current_scope only added to `_using` for template parameters.  Every action that builds such
+    a scope - recognised by that `_using.insert(current_scope)` - must take its parent from the declarator; with
+    current_scope as parent the insert would be pointless, which is the contradiction this rule looks for.
+    (Seed S8-C06: the trailing-return-type site parented to current_scope; its four siblings kept the declarator's scope.)"""
+    db = ctx.db
+    ctx.rule("R06.15", "in the generated parser, a `new CPPScope(P, ...)` whose `_using` receives current_scope has P = <value-stack item>->get_scope(current_scope, global_scope)")
+    fs = [g for g in db.functions if g.file.endswith("cppBison.cxx") and g.name.endswith("yyparse")]
+    if not fs:
+        ctx.broken("R06.15: generated parser not found")
+        return
+    f = fs[0]
+    made = {}       # local decl id -> (ctor node, site)
+    for y in f.walk():
+        if y.get("k") == "decls":
+            for dd in y["d"]:
+                init = strip_casts(peel(dd.get("init"))) if dd.get("init") is not None else None
+                if init is not None and init.get("k") == "new" and init.get("ty") == "CPPScope":
+                    made[dd["d"]] = (init, y, dd.get("n"))
+    n = 0
+    for c in f.walk():
+        if not (c.get("k") == "call" and callee_short(c) == "insert" and "this" in c and c.get("a")):
+            continue
+        t = strip_casts(peel(c["this"]))
+        if not (t is not None and t.get("k") == "mem" and (t.get("n") or "").endswith("CPPScope::_using")):
+            continue
+        owner = local_ref(t.get("b"))
+        arg = strip_casts(peel(c["a"][0]))
+        if owner is None or owner.get("d") not in made or not (arg is not None and arg.get("k") == "ref" and arg.get("n") == "current_scope"):
+            continue
+        n += 1
+        new, site, name = made[owner["d"]]
+        ctor = strip_casts(peel(new.get("e"))) if new.get("e") is not None else None
+        a0 = strip_casts(peel(ctor["a"][0])) if ctor is not None and ctor.get("a") else None
+        ok = a0 is not None and a0.get("k") == "call" and callee_short(a0) == "get_scope" and "yyvsp" in show(a0.get("this") or {})
+        ctx.ob("R06.15", "yyparse|function-scope#%d|parent-is-the-declarators-scope" % n, ok, "src/cppparser/cppBison.yxx (generated line %s)" % f.loc(site).split(":")[-1],
+               "parent = %s" % (show(a0)[:80] if a0 is not None else "?"))
+    ctx.floor("R06.15", "function scopes made by the grammar", n, 5)
